@@ -20,6 +20,10 @@ CONFIG = {
     "assumptions": ["HashMap lookups are by key content (Term::eq + consistent hash: property C02)",
                     "moving a HashMap / Vec / BTreeSet / Box<str> owner never moves or frees the str buffer (std guarantee)"],
     "exec_timeout": 1500,
+    # a broken tie here is a source-shape change (extractor) or a model/impl disagreement on a whole history:
+    # more random histories add little, and thorough ones are expensive
+    "search_rounds": 1,
+    "search_time": 90,
 }
 
 
@@ -105,7 +109,8 @@ def c10_clone_borrows_original(failure):
         return False
     detail = failure.get("detail")
     if detail == "freed":
+        # an ancestor it can point into is gone
         return any(a not in live for a in ancestors)
-    if detail == "latent":
-        return all(a in live for a in ancestors)
-    return False
+    # `latent`: everything it was SEEN to point into is still alive (without the hook only sharing that is
+    # visible through the public API is seen, so other ancestors may be gone already)
+    return detail == "latent"
